@@ -304,6 +304,14 @@ func concCfg(prop string, cas int, tier string) ConcCfg {
 		c.Focus, c.FileFocus, c.HalfFreed, c.DirMoves = false, false, false, false
 		c.Hist = 10
 	}
+	if cas%16 == 10 {
+		// whole listings of a root directory of two blocks next to removals and
+		// creations at both ends of it
+		c.WideRoot = true
+		c.Focus, c.FileFocus, c.HalfFreed, c.DirMoves, c.Evict = false, false, false, false, false
+		c.OpsPer = 5
+		c.Hist = 30
+	}
 	if tier == "thorough" {
 		c.Hist *= 2
 	}
